@@ -302,6 +302,93 @@ theorem title_spec (f : TextFormat) (e : Endian) (h : List Op) : (run f e h).get
     rw [runR_cons]
     cases op <;> simp_all [step, setMessage, deleteMessage, setTitle, getTitle, titleR]
 
+/-! ### the oracle's executable test is sound for the declarative key-order specification -/
+
+private theorem strictlyIncreasing_pairwise :
+    ∀ l : List Nat, strictlyIncreasing l = true → l.Pairwise (· < ·)
+  | [], _ => List.Pairwise.nil
+  | [_], _ => by simp
+  | a :: b :: rest, h => by
+    simp only [strictlyIncreasing, Bool.and_eq_true, decide_eq_true_eq] at h
+    obtain ⟨hab, hr⟩ := h
+    have ih := strictlyIncreasing_pairwise (b :: rest) hr
+    rw [List.pairwise_cons]
+    refine ⟨?_, ih⟩
+    intro x hx
+    rw [List.pairwise_cons] at ih
+    simp only [List.mem_cons] at hx
+    rcases hx with rfl | hx
+    · exact hab
+    · exact Nat.lt_trans hab (ih.1 x hx)
+
+private theorem pairwise_of_filterMap (b : Bytes → Option Nat) :
+    ∀ l : List Bytes, (∀ k ∈ l, (b k).isSome) → (l.filterMap b).Pairwise (· < ·) →
+      l.Pairwise (fun x y => ∃ i j, b x = some i ∧ b y = some j ∧ i < j)
+  | [], _, _ => List.Pairwise.nil
+  | x :: xs, hs, hp => by
+    have hx := hs x (by simp)
+    cases hbx : b x with
+    | none => rw [hbx] at hx; cases hx
+    | some i =>
+      rw [List.filterMap_cons, hbx, List.pairwise_cons] at hp
+      rw [List.pairwise_cons]
+      refine ⟨?_, pairwise_of_filterMap b xs (fun k hk => hs k (by simp [hk])) hp.2⟩
+      intro y hy
+      have hyb := hs y (by simp [hy])
+      cases hby : b y with
+      | none => rw [hby] at hyb; cases hyb
+      | some j =>
+        exact ⟨i, j, hbx, rfl, hp.1 j (List.mem_filterMap.mpr ⟨y, hy, hby⟩)⟩
+
+private theorem birthR_mem_ops (hr : List Op) (k : Bytes) (h : (birthR hr k).isSome) :
+    k ∈ hr.filterMap opKey := by
+  induction hr with
+  | nil => simp [birthR] at h
+  | cons op older ih =>
+    cases op with
+    | set k' m =>
+      by_cases e1 : k' = k
+      · simp [opKey, e1]
+      · simp only [birthR, e1, if_false] at h
+        rw [List.filterMap_cons]; simp only [opKey]; exact List.mem_cons_of_mem _ (ih h)
+    | del k' =>
+      by_cases e1 : k' = k
+      · simp [opKey, e1]
+      · simp only [birthR, e1, if_false] at h
+        rw [List.filterMap_cons]; simp only [opKey]; exact List.mem_cons_of_mem _ (ih h)
+    | title t =>
+      simp only [birthR] at h
+      rw [List.filterMap_cons]; simp only [opKey]; exact ih h
+    | has k' =>
+      simp only [birthR] at h
+      rw [List.filterMap_cons]; simp only [opKey]; exact List.mem_cons_of_mem _ (ih h)
+    | get k' =>
+      simp only [birthR] at h
+      rw [List.filterMap_cons]; simp only [opKey]; exact List.mem_cons_of_mem _ (ih h)
+
+/-- The test the oracle runs on the implementation's key list (`Spec.TextMap.checkKeys`) accepts
+only lists that satisfy the declarative specification `KeysSpec` — i.e., with `keysSpec_unique`,
+only the one list `keys_sorted_by_birth` describes. -/
+theorem checkKeys_sound (h : List Op) (keys : List Bytes) (hc : checkKeys h keys = true) :
+    KeysSpec h keys := by
+  simp only [checkKeys, Bool.and_eq_true, List.all_eq_true, Bool.or_eq_true, Bool.not_eq_true',
+    List.contains_eq_mem, decide_eq_true_eq] at hc
+  obtain ⟨⟨hall, hinc⟩, hcov⟩ := hc
+  constructor
+  · intro k
+    constructor
+    · exact hall k
+    · intro hb
+      have hm : k ∈ h.filterMap opKey := by
+        have := birthR_mem_ops h.reverse k hb
+        rw [List.mem_filterMap] at this ⊢
+        obtain ⟨op, hop, hk⟩ := this
+        exact ⟨op, List.mem_reverse.mp hop, hk⟩
+      rcases hcov k hm with hn | hin
+      · rw [hn] at hb; cases hb
+      · exact hin
+  · exact pairwise_of_filterMap (birth h) keys hall (strictlyIncreasing_pairwise _ hinc)
+
 /-! ### non-vacuity -/
 
 /-- A concrete history: set a, set b, re-set a (keeps first place), delete a, re-add a (appended). -/
